@@ -29,6 +29,7 @@ type Obligation struct {
 	Model   string  `json:"-"`
 	Cover   bool    `json:"cover,omitempty"` // must be satisfiable (vacuity guard)
 	assertIdx int   // 1 + index of the assertion that restates this obligation for later ones
+	skipFrom, skipTo int // assertions [skipFrom, skipTo) describe code after the obligation's program point and are left out
 	localFrom int   // >0: obligation about a loop body; assumptions made before this assertion index are optional
 	Info    map[string]string `json:"info,omitempty"`
 }
@@ -90,6 +91,7 @@ type deferRec struct {
 type inEdge struct {
 	pred *ssa.BasicBlock
 	st   *State
+	pos  int // number of assertions when the edge was taken
 }
 
 type Act struct {
